@@ -180,6 +180,19 @@ CLAIMED = {
             'and reference parser.',
             'Trusted: Lean kernel, standard axioms, translators, composed parser and unparser models (ties S2, S3). Known findings '
             'KF-13a..e, KF-04a/d, KF-05b.', 'DESIGN.md §6 C13'),
+    'C02': ('Lean 4 proof that minified printing depends only on kinds, attributes and string values; kernel-decided facts about '
+            'the required-space truth table, the minify handler tables and the statement slots; model-evaluated witnesses; '
+            'round-trip and token-sequence judge against the real parser and the Lean ES5.1 reference parser',
+            'minify_ignores_positions, minify_same_structure hold for ALL trees and both drop_semi settings over the unparser model '
+            '(tied by S3/S4 on every run); space_table_hits/gaps, minify_space_handlers, no_statement_slot_after_optional_space, '
+            'dropped_semis_are_asi_restorable_partial are decided over the regenerated tables (table level, not lifted to all '
+            'trees); fixed_kf02a/d are regression facts of two repaired defects; kf01/kf02b/c/e/f witnesses prove the negation on '
+            'the open findings. NOT proved: the lexical layer for all trees and the grammar layer; judged: re-parse by real and '
+            'reference parser modulo line continuations / removed empty statements, equality of the reference token sequences '
+            '(no fusion), dropped semicolons are exactly ASI-restorable ones, on G1/G2 and a targeted generator of token class x '
+            'slot pairs.',
+            'Trusted: Lean kernel, standard axioms, translators, unparser model (tie S3/S4), Spec.Es5Parse. Known findings KF-01, '
+            'KF-02b/c/e/f, KF-03a and inherited parser deviations on the output.', 'DESIGN.md §6 C02'),
     'C17': ('Lean 4 kernel decision (decide +kernel) of equality of the three regenerated LALR table sets and lexer rule lists, '
             'lifted to all inputs by a generic theorem about the LR driver model; cross-configuration differential tie',
             'The tables of the three configurations (generated modules / in-memory unoptimised / regenerated by optimize.reoptimize) '
